@@ -22,6 +22,10 @@ type vfHOp struct {
 	K      int       `json:"k,omitempty"`
 	Thr    float32   `json:"thr,omitempty"`
 	IDs    []uint32  `json:"ids,omitempty"`
+	// regime A: per-search efSearch override (>= 2M; 0 = none, negative = through SetEfSearch) and
+	// "threshold = the score reported at this rank of the unthresholded answer" (0 = off)
+	Ef    int `json:"ef,omitempty"`
+	ThrOf int `json:"thr_of_rank,omitempty"`
 }
 
 type vfC12Case struct {
@@ -122,6 +126,15 @@ func vfC12Gen(rt *rapid.T) vfC12Case {
 					op.Thr = float32(rapid.Float64Range(0, 6).Draw(rt, "thr"))
 				}
 				op.IDs = vfGenIDSubset(rt, all)
+				switch rapid.IntRange(0, 5).Draw(rt, "ef_override") {
+				case 0:
+					op.Ef = rapid.IntRange(2*c.M, 8*c.M).Draw(rt, "ef_search")
+				case 1:
+					op.Ef = -rapid.IntRange(2*c.M, 8*c.M).Draw(rt, "ef_set")
+				}
+				if rapid.IntRange(0, 3).Draw(rt, "thr_of") == 0 {
+					op.ThrOf = rapid.IntRange(1, nLive+1).Draw(rt, "thr_of_rank")
+				}
 			}
 			return op
 		}
@@ -479,11 +492,20 @@ func vfC12Run(c vfC12Case, ctx *vfCtx) *vfViolation {
 						newly = append(newly, x)
 					}
 				}
-				if ok, why := vfLegitFlush(&before, &after); !ok {
-					return vfFail("op %d: Flush did more than delete the tombstoned vertices: %s", i, why)
+				for id := range m.live {
+					if _, ok := after.Adj0[id]; !ok {
+						return vfFail("op %d: live vector %d is no longer a vertex of the bottom-layer graph after Flush", i, id)
+					}
 				}
 				if len(newly) > 0 {
 					sort.Slice(newly, func(a, b int) bool { return newly[a] < newly[b] })
+					// KF-2 covers exactly one way of orphaning at Flush: deleting the tombstoned vertices with
+					// their edges and nothing else. A Flush that orphans live vertices in another way is not it.
+					// (A Flush that does MORE - e.g. reconnects the neighbours of deleted vertices - and orphans
+					// nothing is fine: the property does not say what Flush does to the graph.)
+					if ok, why := vfLegitFlush(&before, &after); !ok {
+						return vfFail("op %d: Flush made live vertices %v unreachable from the entry point %d, and not merely by deleting the tombstoned vertices and their edges: %s", i, newly, after.Entry, why)
+					}
 					if !ctx.AttrActive(vfKF2) {
 						return vfFailAttr(vfKF2, "op %d: Flush made live vertices %v unreachable from the entry point %d (edges through deleted vertices are not repaired)", i, newly, after.Entry)
 					}
@@ -494,15 +516,46 @@ func vfC12Run(c vfC12Case, ctx *vfCtx) *vfViolation {
 			if len(op.Vec) != c.Dim || kind == Cosine && vfIsZero(op.Vec) {
 				continue
 			}
-			s := idx.NewSearch().WithQuery(vfCloneF32(op.Vec)).WithK(op.K).WithThreshold(op.Thr)
-			if len(op.IDs) > 0 {
-				s = s.WithDocumentIDs(op.IDs...)
+			if c.Regime == "A" && op.Ef < 0 && -op.Ef >= 2*c.M {
+				idx.SetEfSearch(-op.Ef)
+				ctx.Class("SetEfSearch")
 			}
-			res, err := s.Execute()
+			mk := func(k int, thr float32) VectorSearch {
+				s := idx.NewSearch().WithQuery(vfCloneF32(op.Vec)).WithK(k).WithThreshold(thr)
+				if len(op.IDs) > 0 {
+					s = s.WithDocumentIDs(op.IDs...)
+				}
+				if c.Regime == "A" && op.Ef >= 2*c.M {
+					s = s.WithEfSearch(op.Ef)
+					ctx.Class("WithEfSearch")
+				}
+				return s
+			}
+			res, err := mk(op.K, op.Thr).Execute()
 			if err != nil {
 				return vfFail("op %d: search: %v", i, err)
 			}
 			hits := vfHitsOf(res)
+			if c.Regime == "A" && op.ThrOf > 0 {
+				// tolerance-free: a threshold equal to a reported score keeps exactly the hits up to it
+				allRes, err := mk(0, 0).Execute()
+				if err != nil {
+					return vfFail("op %d: search: %v", i, err)
+				}
+				all := vfHitsOf(allRes)
+				if op.ThrOf <= len(all) && all[op.ThrOf-1].Score > 0 {
+					thr := all[op.ThrOf-1].Score
+					got, err := mk(op.K, thr).Execute()
+					if err != nil {
+						return vfFail("op %d: search: %v", i, err)
+					}
+					if v := vfThresholdRelation(all, vfHitsOf(got), thr, op.K); v != nil {
+						v.Msg = fmt.Sprintf("op %d: exact regime (M=%d, %d resident): %s", i, c.M, resident, v.Msg)
+						return v
+					}
+					ctx.Class("threshold_at_a_reported_score")
+				}
+			}
 			if c.Regime == "A" {
 				cands := m.candidates(op.Vec, op.Thr, op.IDs)
 				if v := vfCompareTopK(hits, cands, op.K, true); v != nil {
@@ -546,6 +599,11 @@ func vfC12Run(c vfC12Case, ctx *vfCtx) *vfViolation {
 				snap := vfHNSWSnapOf(idx)
 				closed := false
 				for u := range snap.Adj0 {
+					// the layer-0 search starts where the greedy descent through the upper layers ends:
+					// at the entry point or at a vertex that lives on an upper layer
+					if u != snap.Entry && snap.Level[u] < 1 {
+						continue
+					}
 					anyLive := false
 					for x := range vfReach(&snap, u) {
 						if !snap.Deleted[x] {
@@ -559,7 +617,7 @@ func vfC12Run(c vfC12Case, ctx *vfCtx) *vfViolation {
 					}
 				}
 				if !closed {
-					return vfFail("op %d: unrestricted search(k=%d) returned nothing although %d live vectors exist and a live vertex is reachable (layer 0) from every resident vertex; entry point %d tombstoned=%v", i, op.K, len(m.live), snap.Entry, snap.Deleted[snap.Entry])
+					return vfFail("op %d: unrestricted search(k=%d) returned nothing although %d live vectors exist and a live vertex is reachable (layer 0) from every vertex at which the layer-0 search can start (entry point and upper-layer vertices); entry point %d tombstoned=%v", i, op.K, len(m.live), snap.Entry, snap.Deleted[snap.Entry])
 				}
 				if !ctx.AttrActive(vfKF2) {
 					return vfFailAttr(vfKF2, "op %d: search returned nothing although %d live vectors exist: the layer-0 graph has a region without any live vertex that cannot be left (orphaning by pruning)", i, len(m.live))
